@@ -333,7 +333,7 @@ var checkC18Engine = def("C18/engine", func(c engineDetCase) error {
 })
 
 func TestC18_engine(t *testing.T) {
-	runRapid(t, "C18/engine", 2500, func(t *rapid.T) engineDetCase {
+	runRapid(t, "C18/engine", 1800, func(t *rapid.T) engineDetCase {
 		sc := genSearchCase(t, abConfigs)
 		cfg, _ := findConfig(sc.Config)
 		if g, err := (gen.GameCase{FEN: sc.FEN, Moves: sc.Moves}).Build(); err == nil {
